@@ -44,36 +44,26 @@ Theorem rmsd_prune_idempotent :
   prune_on_rmsd A d tol l = Ok r -> prune_on_rmsd A d tol r = Ok r.
 Proof. exact prune_on_rmsd_idem. Qed.
 
-(* The tolerance ARGUMENT of prune_on_rmsd (conformers.py:180-191).  PARTIAL: the three RMSD theorems
-   above apply to a call whenever the argument is None, a python float, or a Distance given in Angstrom
-   (first conjunct: the threshold used is the threshold meant) ... *)
-Theorem rmsd_tolerance_argument_partial :
+(* The tolerance ARGUMENT of prune_on_rmsd (conformers.py:183-193, after `fix:` 5b3a1b1): for None, a python
+   float, any other number, or a Distance in any unit, the call is prune_on_rmsd with the threshold in
+   Angstrom that the caller meant - so the three theorems above hold for every call: it never raises, never
+   empties, separates by the meant threshold and is idempotent.  (Before the fix an int raised and
+   Distance(0.01 nm) was used as 0.01 A; the harness keeps those inputs as regression cases.) *)
+Theorem rmsd_tolerance_argument :
   forall (A : Type) (d : A -> A -> Qc) (default : Qc) (t : tol_arg) (l : list A),
-  (match t with TNone => True | TFloat _ => True | TDistance _ f => f = Q2Qc 1 | TOther _ => False end) ->
-  rmsd_tol_used default t = Some (rmsd_tol_meant default t) /\
-  prune_on_rmsd_arg A d default t l = prune_on_rmsd A d (rmsd_tol_meant default t) l.
+  let tol := match t with TNone => default | TFloat x => x | TOther x => x | TDistance x f => (x * f)%Qc end in
+  prune_on_rmsd_arg A d default t l = prune_on_rmsd A d tol l /\
+  exists r, prune_on_rmsd_arg A d default t l = Ok r /\ (l <> [] -> r <> []) /\
+            ForallOrdPairs (fun x y => (tol <= d x y)%Qc) r /\ prune_on_rmsd_arg A d default t r = Ok r.
 Proof.
-  intros A d default t l Ht. unfold prune_on_rmsd_arg, prune_on_rmsd.
-  destruct t as [| x | x | x f]; cbn [rmsd_tol_used rmsd_tol_meant] in *; try contradiction.
-  - split; [reflexivity|]. destruct (length l <? 2); reflexivity.
-  - split; [reflexivity|]. destruct (length l <? 2); reflexivity.
-  - subst f. replace (x * Q2Qc 1)%Qc with x by ring. split; [reflexivity|]. destruct (length l <? 2); reflexivity.
-Qed.
-
-(* ... and is FALSE otherwise: an int (or numpy scalar) tolerance raises for two or more conformers, and a
-   Distance in another unit is used as if it were Angstrom (0.01 nm is used as 0.01, meant 0.1).
-   FINDINGS: Conformers.prune_on_rmsd|non-float-tolerance-raises, |Distance-unit-ignored. *)
-Theorem rmsd_tolerance_argument_refuted :
-  (exists (t : tol_arg) (l : list nat), prune_on_rmsd_arg nat (fun _ _ => Q2Qc 1) (qc 3 10) t l = Crash) /\
-  (exists t, rmsd_tol_used (qc 3 10) t <> Some (rmsd_tol_meant (qc 3 10) t) /\
-             exists (l : list nat) (d : nat -> nat -> Qc),
-               prune_on_rmsd_arg nat d (qc 3 10) t l <> prune_on_rmsd nat d (rmsd_tol_meant (qc 3 10) t) l).
-Proof.
-  split.
-  - exists (TOther (qc 1 1)), [0; 1]. reflexivity.
-  - exists (TDistance (qc 1 100) (qc 10 1)). split.
-    + cbn [rmsd_tol_used rmsd_tol_meant]. intro H. injection H as H. discriminate H.
-    + exists [0; 1], (fun _ _ => qc 5 100). vm_compute. discriminate.
+  intros A d default t l tol.
+  assert (E : forall l', prune_on_rmsd_arg A d default t l' = prune_on_rmsd A d tol l').
+  { intro l'. unfold prune_on_rmsd_arg, prune_on_rmsd. subst tol.
+    destruct t; cbn [rmsd_tol_used]; destruct (length l' <? 2); reflexivity. }
+  split; [apply E|].
+  destruct (prune_on_rmsd_facts A d tol l) as [r [H1 [_ [H3 [_ [H5 _]]]]]].
+  exists r. rewrite !E. split; [exact H1|]. split; [exact H3|]. split; [exact H5|].
+  exact (prune_on_rmsd_idem A d tol l r H1).
 Qed.
 
 (* =================================== energy pruning ========================================= *)
@@ -332,8 +322,12 @@ Qed.
    node by its POSITION in the graph's iteration order.  PARTIAL: it is the disjoint union ALIGNED with
    the atoms (node count, edges = the molecules' edges shifted by the number of atoms before the
    molecule, every edge inside one molecule's atom_indexes range) PROVIDED every molecule's graph lists
-   its nodes in label order 0..n-1 with in-range edges and one node per atom (`sorted_nodes`) — true of
-   a freshly perceived graph, false after Species.reorder_atoms on a molecule whose graph exists. *)
+   its nodes in label order 0..n-1 with in-range edges (`sorted_nodes`).  That proviso is an invariant of
+   the two places where autodE builds a molecule's graph - make_graph adds the nodes 0..n-1 in order and,
+   since `fix:` e56d617, mol_graphs.reorder_nodes re-inserts them in label order - but graph construction is
+   not modelled, so it stays a premise here; both functions are source-pinned and the harness checks the
+   premise on every molecule of every case (key `...|graph-nodes-not-in-label-order`).  Before e56d617 a
+   re-ordered molecule (node order 2,0,1) violated it and the complex graph was misaligned with the atoms. *)
 Theorem complex_graph_disjoint_union_partial :
   forall (At : Type) (ms : list (mol At)),
   (forall m, In m ms -> sorted_nodes At m) ->
@@ -362,16 +356,6 @@ Proof.
       assert (Hm : In m ms) by (eapply nth_error_In; exact Hk).
       destruct (Hs m Hm) as [_ He]. destruct (He a' b' Hin) as [Ha Hb].
       rewrite (Hn m Hm) in Ha, Hb. split; apply in_seq; lia.
-Qed.
-
-(* Without that proviso "disjoint-union bond graph [matching the] per-molecule index ranges" is FALSE of the
-   code.  Witness: HCN whose atoms were re-ordered to C,N,H after its graph was built (node iteration order
-   2,0,1; edges C-N = (0,1), C-H = (0,2)): the complex gets the edges (1,2),(1,0), i.e. "N-H, N-C".
-   FINDING (replayed on the real Complex): Complex.__init__|graph-misaligned-after-reorder_atoms. *)
-Theorem complex_graph_disjoint_union_refuted :
-  exists ms : list (mol nat), c_graph nat ms <> union_shift nat 0 ms.
-Proof.
-  exists [mkMol nat [6; 7; 1] 0 1 3 [2; 0; 1] [(0, 1); (0, 2)]]. vm_compute. discriminate.
 Qed.
 
 (* =================================== rigid-body conformers ================================== *)
